@@ -58,9 +58,10 @@ def run(res, tier, replay):
     # a cabinet far inside a container larger than 2 GiB (a sparse file of the harness: zero bytes except for the cabinet): offsets
     # relative to the cabinet stay small, the absolute ones do not
     far = []
-    for i in range(1 if tier == "quick" else 3):
+    for i in range(2 if tier == "quick" else 5):
         c = gen.cab_single(rng, nfolders=rng.choice([1, 2]), methods=[("none",), ("mszip",)]); cb = c.files["in0.cab"]
-        off = rng.choice([0x80001000, 0x7FFF8000 - 40, 0x80000000 - len(cb) // 2])
+        # always one cabinet wholly beyond 2^31 (its header strings too) and one straddling the mark; beyond 2^32 in the thorough tier
+        off = [0x80001000, 0x80000000 - len(cb) // 2, 0x7FFF8000 - 40, 0x100000309, 0xFFFFFFF0][i]
         sc = scenario.Scn(); sc.lines.append("sparse in0.cab %d %d %s" % (off + len(cb) + rng.choice([0, 77]), off, cb.hex()))
         sc.op("cab_new").op("cab_search", "c0", "in0.cab")
         for mi in range(len(c.members)): sc.op("cab_extract", "c0", mi, "out0_%d" % mi, 0)
